@@ -94,17 +94,39 @@ Lemma norm_rl_id : forall rl, wf_rl rl = true -> is_compact rl = true -> norm_rl
 Proof. intros rl Hw Hc. unfold norm_rl. rewrite (compact_id rl Hw Hc). reflexivity. Qed.
 
 (* ---------- RangeList ---------- *)
+Lemma parse_ranges_cons : forall t r n, parse_ranges (t :: r) n =
+  if n =? 0 then Some ([], t :: r)
+  else match parse_range_tok t with
+       | None => None
+       | Some rg => match parse_ranges r (n - 1) with
+                    | None => None
+                    | Some (rs, r') => Some (rg :: rs, r')
+                    end
+       end.
+Proof. reflexivity. Qed.
+
+Lemma parse_ranges_zero : forall toks, parse_ranges toks 0 = Some ([], toks).
+Proof. intros [|t r]; reflexivity. Qed.
+
+Lemma parse_ranges_step : forall s e r n rs r', s <= u64_max -> e <= u64_max ->
+  parse_ranges r n = Some (rs, r') -> parse_ranges (range_tok (s, e) :: r) (N.succ n) = Some ((s, e) :: rs, r').
+Proof.
+  intros s e r n rs r' Hs He H. rewrite parse_ranges_cons.
+  destruct (N.succ n =? 0) eqn:E; [apply N.eqb_eq in E; destruct (N.neq_succ_0 _ E)|].
+  rewrite (parse_range_tok_range_tok s e Hs He).
+  rewrite <- N.pred_sub, N.pred_succ. rewrite H. reflexivity.
+Qed.
 Lemma parse_ranges_roundtrip : forall rl rest, forallb rb rl = true ->
   parse_ranges (map range_tok rl ++ rest) (N.of_nat (length rl)) = Some (rl, rest).
 Proof.
   induction rl as [|[s e] rl IH]; intros rest H.
-  - cbn [map app length]. destruct rest; reflexivity.
+  - apply parse_ranges_zero.
   - cbn [forallb] in H. apply andb_true_iff in H. destruct H as [Hr Hl]. unfold rb in Hr. cbn [fst snd] in Hr.
-    cbn [map app length parse_ranges].
-    destruct (N.of_nat (S (length rl)) =? 0) eqn:E; [lia|].
-    rewrite parse_range_tok_range_tok by (unfold usize_max in *; lia).
-    replace (N.of_nat (S (length rl)) - 1) with (N.of_nat (length rl)) by lia.
-    rewrite (IH rest Hl). reflexivity.
+    apply andb_true_iff in Hr. destruct Hr as [H1 H2]. apply N.ltb_lt in H1, H2.
+    cbn [map app length]. rewrite Nat2N.inj_succ. apply parse_ranges_step.
+    + apply N.lt_le_incl. exact H1.
+    + apply N.lt_le_incl. exact H2.
+    + apply IH. exact Hl.
 Qed.
 
 Lemma parse_range_list_roundtrip : forall rl rest, wf_rl rl = true ->
